@@ -117,6 +117,21 @@ def gen_spec(rng: random.Random, S=None, A=None, E=None, kind="random", R=None, 
                     else:
                         nxt[s][a][e], rew[s][a][e] = 0, float(max(1, R // 8)) - float(a)
         tags.append("invest")
+    if kind == "latepay":
+        # huge magnitudes and a decision that only the late, slowly accumulating part of a return settles: state 0 chooses between cashing in
+        # r_A = gamma*rho/(1-gamma) - delta now (then nothing, state 2) and entering state 1, which pays rho per step for ever.  Entering is better by
+        # delta = 1/10, but value iteration from zero sees that only once gamma^n * rho * gamma/(1-gamma) < delta, i.e. when the change per sweep has
+        # fallen to about delta*(1-gamma)/gamma — a solver that stops any earlier returns the policy that cashes in (loss delta, far above the bound)
+        S, A, E = 3, 2, 1
+        rho = float(R)
+        gam = 0.99
+        r_a = gam * rho / (1 - gam) - 0.1
+        smins, smaxs, amins, amaxs, emins, emaxs = [0], [2], [0], [1], [0], [0]
+        nxt = [[[2], [1]], [[1], [1]], [[2], [2]]]
+        rew = [[[r_a], [0.0]], [[rho], [rho]], [[0.0], [0.0]]]
+        prob = [[[1.0], [1.0]] for _ in range(3)]
+        tags.append("latepay")
+        init, initpol, near_tie, tiny = False, False, False, False
     if kind == "periodic":
         # deterministic cycle structure of period p over classes s % p; every action moves to the next class
         p = rng.randint(2, min(4, max(2, S)))
